@@ -1,6 +1,6 @@
 #!/bin/bash
 # stability of the quick tier over seeds: every quick command must exit 0 on the unchanged tree for every seed
-for sd in ${SEEDS:-0 2 3 4 5}; do
+for sd in ${SEEDS:-1 0 2 3 4 5}; do
   for i in $(seq -w 1 20); do
     p=C$i; s=$(date +%s)
     VERIF_SEED=$sd PYTHONPATH=/repo PYTHONHASHSEED=0 timeout 3600 /venv/bin/python run.py --property $p --tier quick > sweep_${sd}_$p.log 2>&1; rc=$?
